@@ -8,7 +8,8 @@
    violates the statement, see C16_Refuted.v. *)
 From SG Require Import Base.Prelude C16.RevCache C16.RevCacheLemmas C16.RevCacheProofs C16.RevCacheContent
   C16.RevCacheRuns C16.RevCacheSharded C16.RevCacheConc C16.RevCacheConcProofs C16.RevCacheConcRest
-  C16.RevCacheDelta C16.RevCacheDeltaProofs C16.RevCacheDeltaLink C16.RevCacheStep C16.RevCacheStepProofs.
+  C16.RevCacheDelta C16.RevCacheDeltaProofs C16.RevCacheDeltaLink C16.RevCacheStep C16.RevCacheStepProofs
+  C16.RevCacheCoherence C16.RevCacheCoherenceProofs.
 Open Scope Z_scope.
 
 (* the number of cached items never exceeds the configured capacity *)
@@ -259,10 +260,53 @@ Theorem C16_delta_orchestrator_conservative : forall cfg l a ops,
 Proof. exact delta_orchestrator_conservative. Qed.
 Print Assumptions C16_delta_orchestrator_conservative.
 
+(* ---------- cache coherence across writers (RevCacheCoherence.v) ----------
+   Any number of gateway nodes, each with its own cache keyed by revTreeID AND by CV, on one bucket;
+   [hrun docchanged_inval hinit ops] is any history of mutations by any node (ordinary writes, imports,
+   user-xattr-only imports, ISGR local-wins resolutions -- with the writer's own cache operations), feed
+   deliveries (DocChanged) in order per node but arbitrarily delayed and interleaved, Gets and evictions. *)
+
+(* after a node has processed its feed, whatever it has cached under a key that is current in the bucket --
+   a revTreeID key or a CV key -- is what a load from the bucket returns for that key, and every Get of a
+   current key on that node returns exactly that *)
+Theorem C16_cache_coherent_after_feed : forall ops s n,
+  hrun docchanged_inval hinit ops = Some s -> hqueue s n = [] ->
+  (forall k c, hcache s n k = Some c -> current s k = true -> c = content_of s k) /\
+  (forall k old s' r, current s k = true -> hstep docchanged_inval s (OGet n k old) = Some (s', r) ->
+                      r = Some (content_of s k)).
+Proof. exact docchanged_coherent_after_feed. Qed.
+Print Assumptions C16_cache_coherent_after_feed.
+
+(* at every moment: an entry that differs from the bucket under a still-current key exists on a node only
+   while a feed event that will drop it is queued for that node *)
+Theorem C16_stale_only_while_feed_event_pending : forall ops s,
+  hrun docchanged_inval hinit ops = Some s ->
+  forall n k, stale s n k -> exists e, In e (hqueue s n) /\ docchanged_inval e k = true.
+Proof. exact docchanged_stale_only_while_pending. Qed.
+Print Assumptions C16_stale_only_while_feed_event_pending.
+
+(* the obligation on the feed handler, and that DocChanged's rule meets it: every mutation's event invalidates
+   each key that stays current while the result of loading it changes (user xattr -> the revTreeID key,
+   UnchangedCV -> the CV key); coherence holds for EVERY rule that meets it *)
+Theorem C16_docchanged_invalidation_sound : inval_sound docchanged_inval.
+Proof. exact docchanged_sound. Qed.
+Print Assumptions C16_docchanged_invalidation_sound.
+
+Theorem C16_coherent_for_any_sound_invalidation : forall inval, inval_sound inval -> forall ops s n,
+  hrun inval hinit ops = Some s -> hqueue s n = [] ->
+  forall k c, hcache s n k = Some c -> current s k = true -> c = content_of s k.
+Proof. intros inval S ops s n R Q. exact (proj1 (cache_coherent_after_feed inval S ops s n R Q)). Qed.
+Print Assumptions C16_coherent_for_any_sound_invalidation.
+
 (* data of the non-vacuity example for the refined model and for the delta orchestrator *)
 Definition ex_sched : list eact :=
   [EGet 0 5%N; ELoadBegin 0; EGet 1 5%N; EPut 2 5%N (mkC 5 45); EStep 2 LPBytes; EStep 2 LPCas; EStep 2 LPInc;
    ELoadEnd 0; EStep 0 LGCas; ELoadBegin 1; EStep 2 LPStore; EDelta 9%N 30%N].
+Definition ex_hops : list hop :=
+  [OMut 0 true (MWrite 1 10 20 100 200); ODeliver 0; ODeliver 1;
+   OGet 1 (mkK 1 false 10) None; OGet 1 (mkK 1 true 20) None;
+   OMut 0 false (MXattr 1 22 101 202); ODeliver 0; ODeliver 1; OGet 1 (mkK 1 false 10) None; OGet 1 (mkK 1 true 22) None;
+   OMut 0 true (MLocalWins 1 11 102 203); ODeliver 1; ODeliver 0; OGet 1 (mkK 1 true 22) None]%N.
 Definition ex_dops : list dop :=
   [DRev (Get 1%N); DUpdate 7%N 30%N; DUpdate 8%N 40%N; DGetWith 1%N 7%N].
 
@@ -283,9 +327,13 @@ Example C16_nonvacuous :
   (dputs_ok ex_cfg (dinit ex_ld ex_act) ex_dops /\
    keys (lru (drs (drun ex_cfg (dinit ex_ld ex_act) ex_dops))) = [1%N] /\
    dkeys (dlru (drun ex_cfg (dinit ex_ld ex_act) ex_dops)) = [7%N] /\
-   total (drun ex_cfg (dinit ex_ld ex_act) ex_dops) = 71).
+   total (drun ex_cfg (dinit ex_ld ex_act) ex_dops) = 71) /\
+  (* two nodes: write, pre-cache on node 1 by revTreeID and by CV, xattr-only import and local-wins on node 0,
+     feed processed: node 1 is coherent and has re-loaded *)
+  (exists s, hrun docchanged_inval hinit ex_hops = Some s /\ hqueue s 1%nat = [] /\
+     hcache s 1%nat (mkK 1 true 22) = Some 203%N /\ current s (mkK 1 true 22) = true).
 Proof.
-  split; [|split; [|split; [|split; [|split; [|split; [|split]]]]]].
+  split; [|split; [|split; [|split; [|split; [|split; [|split; [|split]]]]]]].
   - unfold ex_ops. cbn [puts_ok put_ok]. repeat split. vm_compute. intros v H. discriminate H.
   - unfold ex_ops. cbn [writes_through write_through]. repeat split.
   - reflexivity.
@@ -295,4 +343,5 @@ Proof.
   - eexists. split; [vm_compute; reflexivity|]. split; [repeat constructor|]. repeat split; reflexivity.
   - split; [|repeat split; vm_compute; reflexivity].
     unfold ex_dops. cbn [dputs_ok dput_ok]. repeat split.
+  - eexists. split; [vm_compute; reflexivity|]. repeat split; reflexivity.
 Qed.
